@@ -279,6 +279,18 @@ def check(case, ctx):
             if exp_c is not None:
                 ctx.check(all(abs(a - b_) <= tol for p, q_ in zip(got_c, exp_c) for a, b_ in zip(p, q_)), 'copy/result-views-stale',
                           '%s(inplace=False): ctrlpts of the result are not the mapped control points of the input' % op, what='inplace-semantics')
+            # ... and READING the copy's views must not change what the input reports (checked before the copy is edited again: an
+            # edit would empty a cache the two objects share and hide it)
+            if res.rational:
+                _ = list(res.weights)
+            for nm, old in input_views.items():
+                if nm == 'evalpts':
+                    continue
+                now = [list(p) for p in getattr(obj, nm)] if nm != 'weights' else list(getattr(obj, nm))
+                same = len(now) == len(old) and all((abs(a - b_) <= 1e-12 * max(1.0, abs(b_))) if not isinstance(a, list) else
+                                                    all(abs(x - y) <= 1e-12 * max(1.0, abs(y)) for x, y in zip(a, b_)) for a, b_ in zip(now, old))
+                ctx.check(same, 'copy/input-views-changed', '%s(inplace=False): %s of the INPUT changed after the views of the copy were read'
+                          % (op, nm), what='inplace-semantics')
             res.ctrlpts = [[c + 1.0 for c in p] for p in res.ctrlpts]
         for nm, old in input_views.items():
             now = [list(p) for p in getattr(obj, nm)] if nm != 'weights' else list(getattr(obj, nm))
